@@ -126,15 +126,16 @@ def strat_fb(draw, tier):
     md = draw(st.one_of(st.just(0), st.integers(1, N // 3), st.integers(1, 40)))
     gulp = draw(st.one_of(st.integers(1, N + 5), st.integers(1, max(2, N // 3)), st.integers(1, 2 * md + 1)))
     return {"layout": lay, "nbins": nbins, "nints": nints, "nbands": nbands, "ratio": ratio, "accel": accel,
+            "tsamp": draw(st.sampled_from([2.0**-10, 2.0**-10, 64e-6, 1e-3, 0.000327])),
             "md_target": md, "gulp": gulp, "fch1": draw(st.sampled_from([1400.0, 800.0])),
             "foff": -draw(st.sampled_from([1.0, 4.0, 10.0]))}
 
 
-def dm_for(md, fch1, foff, nchans):
+def dm_for(md, fch1, foff, nchans, tsamp=TSAMP):
     if nchans == 1 or md == 0:
         return 0.0
     flo = fch1 + (nchans - 1) * foff
-    return md * TSAMP / (KDM * (flo**-2 - fch1**-2))
+    return md * tsamp / (KDM * (flo**-2 - fch1**-2))
 
 
 def check_fb(case, ctx):
@@ -142,19 +143,20 @@ def check_fb(case, ctx):
 
     lay = case["layout"]
     d = ctx.fresh_dir()
-    paths, D, _, _ = vs.write_layout(lay, d, fch1=case["fch1"], foff=case["foff"], tsamp=TSAMP)
+    tsamp = case.get("tsamp", TSAMP)
+    paths, D, _, _ = vs.write_layout(lay, d, fch1=case["fch1"], foff=case["foff"], tsamp=tsamp)
     N, nchans = D.shape
     nbins, nints, nbands = case["nbins"], case["nints"], case["nbands"]
-    period = case["ratio"] * TSAMP
+    period = case["ratio"] * tsamp
     accel = case["accel"]
-    dm = dm_for(case["md_target"], case["fch1"], case["foff"], nchans)
+    dm = dm_for(case["md_target"], case["fch1"], case["foff"], nchans, tsamp)
     rd = FilReader(paths)
     delays = np.asarray(rd.header.get_dmdelays(dm)).reshape(-1).astype(np.int64)
     md = int(delays.max())
     if delays.min() < 0 or md >= N // 2:
         return Info(False, ("skipped",))
     ctxt = (f"N={N} nchans={nchans} nbits={lay['nbits']} split={lay['split']} nbins={nbins} nints={nints} nbands={nbands} "
-            f"period/tsamp={case['ratio']!r} accel={accel!r} dm={dm!r} maxdelay={md} gulp={case['gulp']}")
+            f"tsamp={tsamp!r} period/tsamp={case['ratio']!r} accel={accel!r} dm={dm!r} maxdelay={md} gulp={case['gulp']}")
 
     def run(gulp):
         with warnings.catch_warnings():
@@ -170,7 +172,7 @@ def check_fb(case, ctx):
     one = run(N + 10)
     if not same_cube(cube.data, one.data):
         raise Violation("fold:gulp-dependent", ctxt)
-    sums, cnts, amb = fold_oracle(D, delays, TSAMP, period, accel, nbins, nints, nbands)
+    sums, cnts, amb = fold_oracle(D, delays, tsamp, period, accel, nbins, nints, nbands)
     require(int(cnts.sum()) == (N - md) * nchans, "oracle:self-check")
     labels = [f"{lay['nbits']}bit"]
     eff_gulp = max(case["gulp"], 2 * md)
@@ -213,7 +215,8 @@ def check_kernel(case, ctx):
     D = vs.make_data(lay)
     N, nchans = D.shape
     nbins, nints, nbands = case["nbins"], case["nints"], case["nbands"]
-    period = case["ratio"] * TSAMP
+    tsamp = case.get("tsamp", TSAMP)
+    period = case["ratio"] * tsamp
     accel = case["accel"]
     # delays: a deterministic non-negative ramp with the target maximum
     md = min(case["md_target"], N // 3)
@@ -230,7 +233,7 @@ def check_kernel(case, ctx):
         if ln <= md and nblocks > 0:
             break
         block = flat[pos * nchans : (pos + ln) * nchans]
-        kernels.fold(block, fold_ar, count_ar, delays, md, TSAMP, period, accel, N, ln, nchans, nbins, nints, nbands,
+        kernels.fold(block, fold_ar, count_ar, delays, md, tsamp, period, accel, N, ln, nchans, nbins, nints, nbands,
                      ii * (gulp - md))
         nblocks += 1
         if pos + ln >= N:
@@ -242,7 +245,7 @@ def check_kernel(case, ctx):
     total = int(count_ar.sum())
     if total != (N - md) * nchans:
         raise Violation("kernel:hit-count-total", f"{ctxt}: counts sum to {total}, samples folded {(N - md) * nchans}")
-    sums, cnts, amb = fold_oracle(D, delays.astype(np.int64), TSAMP, period, accel, nbins, nints, nbands)
+    sums, cnts, amb = fold_oracle(D, delays.astype(np.int64), tsamp, period, accel, nbins, nints, nbands)
     labels = ["ambiguous"] if amb else []
     if not amb:
         if not np.array_equal(count_ar.reshape(nints, nbands, nbins), cnts):
